@@ -4,6 +4,7 @@ package hst
 
 import (
 	"math/big"
+	"sync"
 
 	"github.com/xuperchain/xupercore/bcs/ledger/xledger/state"
 	pb "github.com/xuperchain/xupercore/bcs/ledger/xledger/xldgpb"
@@ -983,3 +984,106 @@ func verifC06() {
 }
 
 func VerifC06Quick() { verifC06() }
+
+// ---------------------------------------------------------------- C12 (submissions)
+
+// verifC12Submit: T concurrent DoTx of (possibly) conflicting transactions under every interleaving of the
+// synchronisation operations within the preemption bound. The outcome must equal that of SOME one-at-a-time
+// order of the same requests: the admitted ones are conflict-free, at least the requests a sequential order
+// would admit first are not all refused, and the final state equals a node that admitted them one by one.
+func verifC12Submit(T int) {
+	e := vkit.NewEnv("c12", vkit.Genesis("0", "9", "5"), nil)
+	s := e.NewState("live")
+	vrt.Assert(s.Play(e.Root.Blockid) == nil, "genesis-plays")
+	root := e.RootTx.Txid
+	nine, five := big.NewInt(9), big.NewInt(5)
+	x := big.NewInt(vrt.Int("x", 1, 9))
+	mkfam := func() []*pb.Transaction {
+		p1 := vkit.WithKey(vkit.Tx("p1", []*protos.TxInput{vkit.In(root, 0, "A", nine)}, []*protos.TxOutput{vkit.Out("C", x, 0), vkit.Out("A", new(big.Int).Sub(nine, x), 0)}), "bk", "k1", nil, 0, []byte("p1"))
+		p2 := vkit.WithKey(vkit.Tx("p2", []*protos.TxInput{vkit.In(root, 0, "A", nine)}, []*protos.TxOutput{vkit.Out("B", nine, 0)}), "bk", "k1", nil, 0, nil)
+		p3 := vkit.WithKey(vkit.Tx("p3", []*protos.TxInput{vkit.In(root, 1, "B", five)}, []*protos.TxOutput{vkit.Out("C", five, 0)}), "bk", "k1", nil, 0, []byte("p3"))
+		p5 := vkit.WithKey(vkit.Tx("p5", []*protos.TxInput{vkit.In(root, 1, "B", five)}, []*protos.TxOutput{vkit.Out("A", five, 0)}), "bk", "k2", nil, 0, []byte("p5"))
+		return []*pb.Transaction{p1, p2, p3, p5}
+	}
+	fam := mkfam()
+	// conflicts: p1-p2 (same output), p1-p3 (same key version, both write), p2-p3 (p2 reads what p3 overwrites:
+	// both orders are serialisable only as p2 before p3), p3-p5 (same output), p1-p5 none, p2-p5 none
+	pick := make([]int, T)
+	for t := range pick {
+		pick[t] = vrt.Choice("request", len(fam))
+		for u := 0; u < t; u++ {
+			if pick[u] == pick[t] {
+				return // the same transaction twice is the duplicate case of C03
+			}
+		}
+	}
+	errs := make([]error, T)
+	var wg sync.WaitGroup
+	vrt.ExploreSchedules(true)
+	for t := 0; t < T; t++ {
+		wg.Add(1)
+		go func(t int) {
+			defer wg.Done()
+			errs[t] = s.DoTx(fam[pick[t]])
+		}(t)
+	}
+	wg.Wait()
+	vrt.ExploreSchedules(false)
+	vrt.Quiesce()
+	var admitted []int
+	for t := 0; t < T; t++ {
+		if errs[t] == nil {
+			admitted = append(admitted, pick[t])
+		}
+	}
+	vrt.Cover("both-admitted", len(admitted) == T)
+	vrt.Cover("one-refused", len(admitted) < T)
+	vrt.Assert(len(admitted) >= 1, "not-every-request-refused")
+	// the final state equals a node that admitted exactly these, one at a time, in some order
+	okOrder := false
+	var perm func(rest []int, done []int)
+	perm = func(rest []int, done []int) {
+		if okOrder {
+			return
+		}
+		if len(rest) == 0 {
+			rep := e.NewState("seq" + string([]byte{byte('0' + len(done))}) + orderTag(done))
+			if rep.Play(e.Root.Blockid) != nil {
+				return
+			}
+			f2 := mkfam()
+			for _, i := range done {
+				if rep.DoTx(f2[i]) != nil {
+					return
+				}
+			}
+			same := true
+			vkit.Same(vkit.Observe(s), vkit.Observe(rep), func(c bool, label string) {
+				if !c {
+					same = false
+				}
+			})
+			if same {
+				okOrder = true
+			}
+			return
+		}
+		for i := range rest {
+			r2 := append(append([]int{}, rest[:i]...), rest[i+1:]...)
+			perm(r2, append(append([]int{}, done...), rest[i]))
+		}
+	}
+	perm(admitted, nil)
+	vrt.Assert(okOrder, "outcome-equals-some-one-at-a-time-order-of-the-admitted-requests")
+}
+
+func orderTag(o []int) string {
+	b := []byte{}
+	for _, i := range o {
+		b = append(b, byte('a'+i))
+	}
+	return string(b)
+}
+
+func VerifC12SubmitQuick()    { verifC12Submit(2) }
+func VerifC12SubmitThorough() { verifC12Submit(3) }
